@@ -52,6 +52,7 @@ func init() {
 		ex.setBool("c14PrivateCopyPerUpstream", okCopy, true, "exchange: the query is packed once; every helper gets its own copy, released by that helper")
 		ex.setBool("c14HelperShape", okHelper, true, "helper: fixed timeout detached from the caller's context, unparsable replies count as failures, the result is handed over unless the call has already returned")
 		ex.setBool("c14CollectShape", okCollect, true, "collection loop: failures are skipped, a reply that is not the last is skipped unless its rcode is NOERROR or NXDOMAIN, the context ends the call")
+		c14ConstructionFacts(ex, rel)
 		qc := ex.fn(rel, "Forward", "QuickConfigureExec")
 		if qc != nil {
 			qs := strings.Join(stmtStrings(ex, qc.Body), " ")
@@ -60,4 +61,86 @@ func init() {
 				"QuickConfigureExec: no argument = all upstreams, otherwise exactly the upstreams with the listed tags, in the listed order")
 		}
 	})
+}
+
+// c14ConstructionFacts: how NewForward turns the configured entries into the upstream list U.
+func c14ConstructionFacts(ex *factExtractor, rel string) {
+	nf := ex.fn(rel, "", "NewForward")
+	if nf == nil {
+		return
+	}
+	ss := stmtStrings(ex, nf.Body)
+	var loops []*ast.RangeStmt
+	ast.Inspect(nf.Body, func(n ast.Node) bool {
+		if rs, ok := n.(*ast.RangeStmt); ok {
+			loops = append(loops, rs)
+		}
+		return true
+	})
+	okLoop, okOpts := false, false
+	var optLit *ast.CompositeLit
+	if len(loops) == 1 && ex.str(loops[0].Key) == "i" && ex.str(loops[0].Value) == "c" && ex.str(loops[0].X) == "args.Upstreams" {
+		b := loops[0].Body.List
+		at := func(i int) string {
+			if i < len(b) {
+				return ex.str(b[i])
+			}
+			return ""
+		}
+		nCalls := 0
+		for _, c := range ex.calls(nf.Body) {
+			if c == "upstream.NewUpstream" {
+				nCalls++
+			}
+		}
+		otherWrites := 0 // any other statement that writes the wrapper's upstream, the list or the tag map
+		for _, s := range ss {
+			if (strings.HasPrefix(s, "uw.u ") || strings.HasPrefix(s, "uw.u=") || strings.HasPrefix(s, "f.us ") || strings.HasPrefix(s, "f.us[") || strings.HasPrefix(s, "f.tag2Upstream[")) &&
+				s != "uw.u = u" && s != "f.us = append(f.us, uw)" && s != "f.tag2Upstream[c.Tag] = uw" {
+				otherWrites++
+			}
+		}
+		okLoop = len(b) == 9 &&
+			strings.HasPrefix(at(0), "if len(c.Addr) == 0 { return nil, ") &&
+			at(1) == "applyGlobal(&c)" &&
+			at(2) == "uw := newWrapper(i, c, opt.MetricsTag)" &&
+			strings.HasPrefix(at(3), "uOpt := upstream.Opt{") &&
+			at(4) == "u, err := upstream.NewUpstream(c.Addr, uOpt)" &&
+			strings.HasPrefix(at(5), "if err != nil { _ = f.Close() return nil, ") &&
+			at(6) == "uw.u = u" &&
+			at(7) == "f.us = append(f.us, uw)" &&
+			strings.HasPrefix(at(8), "if len(c.Tag) > 0 { if _, dup := f.tag2Upstream[c.Tag]; dup { _ = f.Close() return nil, ") && strings.HasSuffix(at(8), " } f.tag2Upstream[c.Tag] = uw }") &&
+			nCalls == 1 && otherWrites == 0 &&
+			countStr(ss, "uw.u = u") == 1 && countStr(ss, "f.us = append(f.us, uw)") == 1 && countStr(ss, "f.tag2Upstream[c.Tag] = uw") == 1
+		for _, st := range b {
+			if as, ok := st.(*ast.AssignStmt); ok && len(as.Lhs) == 1 && len(as.Rhs) == 1 && ex.str(as.Lhs[0]) == "uOpt" && optLit == nil {
+				optLit, _ = as.Rhs[0].(*ast.CompositeLit)
+			}
+		}
+	}
+	if optLit != nil {
+		kv := map[string]string{}
+		for _, e := range optLit.Elts {
+			if p, ok := e.(*ast.KeyValueExpr); ok {
+				kv[ex.str(p.Key)] = ex.str(p.Value)
+			}
+		}
+		want := map[string]string{
+			"DialAddr": "c.DialAddr", "Socks5": "c.Socks5", "SoMark": "c.SoMark", "BindToDevice": "c.BindToDevice",
+			"IdleTimeout": "time.Duration(c.IdleTimeout) * time.Second", "EnablePipeline": "c.EnablePipeline", "EnableHTTP3": "c.EnableHTTP3",
+			"Bootstrap": "c.Bootstrap", "BootstrapVer": "c.BootstrapVer", "EventObserver": "uw",
+		}
+		okOpts = len(kv) == len(optLit.Elts)
+		for k, v := range want {
+			if kv[k] != v {
+				okOpts = false
+			}
+		}
+		okOpts = okOpts && strings.Contains(kv["TLSConfig"], "InsecureSkipVerify: c.InsecureSkipVerify") &&
+			contains(ss, "applyGlobal := func(c *UpstreamConfig) { utils.SetDefaultString(&c.Socks5, args.Socks5) utils.SetDefaultUnsignNum(&c.SoMark, args.SoMark) utils.SetDefaultString(&c.BindToDevice, args.BindToDevice) utils.SetDefaultString(&c.Bootstrap, args.Bootstrap) utils.SetDefaultUnsignNum(&c.BootstrapVer, args.BootstrapVer) }")
+	}
+	ex.setBool("c14UpstreamPerEntry", okLoop, true,
+		"NewForward: one pass over args.Upstreams; every entry gets its own wrapper and its own upstream.NewUpstream(c.Addr, uOpt) call (the only one), appended to the list in configuration order and registered under its own tag; nothing else writes the list, a wrapper's upstream or the tag map")
+	ex.setBool("c14EntryOptions", okOpts, true,
+		"NewForward: the upstream of an entry is created from that entry's own addr, dial_addr, socks5, so_mark, bind_to_device, idle_timeout, pipeline, http3, bootstrap(+version), insecure_skip_verify; the plugin-wide socks5 / so_mark / bind_to_device / bootstrap(+version) only fill fields the entry leaves empty")
 }
